@@ -65,6 +65,10 @@ CLAIMS = {
                     'a missing-file handler (ONLYFAIL); actual-side and expected-side bookkeeping are exact mirrors (MIRROR); '
                     'suggested commands name caller paths or files written (CMDFILES).',
             'technique': 'effect summaries with provenance + def-use closure of guards + near-mirror clone comparison'},
+    'C16': {'text': 'the date-format translation is correct on every documented field alone, every ordered pair with every separator and the '
+                    'documented compact forms (CHAIN); dialect keys are W3C keys stored under their own names, numeric options not '
+                    'defaulted with `or` (DKEYS); type tables closed and equal to the documented mapping, no date type reaches dtype (TYPES).',
+            'technique': 'abstract interpretation of the translation function on ~1100 composed formats, registry/key-set comparison'},
     'C17': {'text': IEF + ' the three Pandas front-end methods (discover/verify/detect).',
             'technique': 'call-graph reachability + definite-assignment walk + arity check (AST)'},
     'C01': {
